@@ -116,6 +116,10 @@ func init() {
 		}
 		return e.newErr("invalid identifier")
 	})
+	reg(vp+"LightDecimals", func(e *Engine, fn *ssa.Function, a []Value) Value {
+		e.lightDec = a[0].(*T).IsTrue()
+		return nil
+	})
 	reg(vp+"AbstractIdentifiers", func(e *Engine, fn *ssa.Function, a []Value) Value {
 		e.abstractIDs = a[0].(*T).IsTrue()
 		return nil
